@@ -98,6 +98,18 @@ func init() {
 		`-$.a[*].x`, `$.a[*].x.abs()`, `$.a[*] ? (@.x > 3).x`, `strict $.o.keyvalue().value.x`, `strict $.a[*].x.type()`, `$.o.** ? (@.x > 1).x`, `$.a[*].keyvalue().value`} {
 		c20Pool = append(c20Pool, struct{ p, d string }{p, wide})
 	}
+	// arrays of thousands of elements that are copied as a whole (an operand
+	// that lax mode unwraps): whatever polls the context in there reports it
+	var many []string
+	for i := 0; i < 2100; i++ {
+		many = append(many, fmt.Sprint(i))
+	}
+	huge := fmt.Sprintf(`{"n":[%s],"last":2099,"s":["a","b"]}`, strings.Join(many, ","))
+	// (only paths that take the array as a whole: few evaluation steps, so
+	// the number of cancellation points stays small)
+	for _, p := range []string{`-$.n`, `$.last == $.n`, `$ ? (3000 == @.n)`, `$.n like_regex "x"`, `$ ? (@.n == 2099).last`, `+$.n.size()`} {
+		c20Pool = append(c20Pool, struct{ p, d string }{p, huge})
+	}
 	for _, p := range []string{`$.a[*] == $.b[*]`, `$ ? (@.a[*] == @.b[*])`, `($.a[*] > $.b[*]) is unknown`, `strict $.a[*] == $.b[*]`, `$.a[*] == $.b[*] || $.a[0] == 0`,
 		`$.t[*].time() < $.z.time_tz()`, `$.a[*] ? (@ == $.b[*])`} {
 		c20Pool = append(c20Pool, struct{ p, d string }{p, big})
